@@ -33,14 +33,15 @@ def reexpress(r, W):
         x = r.random()
         if x < 0.55:
             k = r.choice(KINDS)
-            out.append({'kind': k, 'ns': ns, 'name': name, 'labels': w['labels'], 'ports': w['ports'], 'replicas': r.choice([None, 0, 1, 2, 5]), 'owner': None})
+            out.append({'kind': k, 'ns': ns, 'name': name, 'labels': w['labels'], 'ports': w['ports'], 'replicas': r.choice([None, 0, 1, 2, 5]), 'owner': None,
+                        'omit_ns': r.random() < 0.5})
             how.append('%s/%s -> %s' % (ns, name, k))
         elif x < 0.85:
             ok = r.choice(['ReplicaSet', 'StatefulSet', 'DaemonSet', 'Job'])
             n = r.randint(1, 3)
             for i in range(n):
                 out.append({'kind': 'Pod', 'ns': ns, 'name': '%s-p%d' % (name, i), 'labels': dict(w['labels']), 'ports': copy.deepcopy(w['ports']),
-                            'replicas': None, 'owner': {'name': name, 'kind': ok}})
+                            'replicas': None, 'owner': {'name': name, 'kind': ok}, 'extra_owner': r.random() < 0.5, 'omit_ns': r.random() < 0.5})
             how.append('%s/%s -> %d pods owned by %s' % (ns, name, n, ok))
         else:
             out.append(w)
